@@ -54,6 +54,10 @@ pub fn run_child(job: &Job, job_file: &Path) -> Result<JobResult, String> {
         .env("RAYON_NUM_THREADS", "1")
         .output()
         .map_err(|e| e.to_string())?;
+    if std::env::var("VERIF_CHILD_STDERR").is_ok() {
+        // debugging aid
+        eprintln!("{}", String::from_utf8_lossy(&out.stderr));
+    }
     let res_path = format!("{}.out", job_file.display());
     let text = std::fs::read_to_string(&res_path).map_err(|e| {
         format!(
